@@ -50,7 +50,8 @@ def split_case(draw):
             'int_components': draw(st.sampled_from([False, False, False, True])), 'x_scale_exp': draw(st.sampled_from([0, 0, 0, -9, 7])),
             # site-dependent components may carry a different number of interaction terms on every bond
             'bond_ranks': None if hom or draw(st.booleans()) else [draw(st.sampled_from([1, 2, 3])) for _ in range(d - 1)],
-            'update_in_place': draw(st.sampled_from([False, False, True]))}
+            'update_in_place': draw(st.sampled_from([False, False, True])),
+            'weak_bond': None if hom else draw(st.sampled_from([None, None, 0, 1, 2, 3]))}
 
 
 def components(c, rng):
@@ -93,6 +94,14 @@ def components(c, rng):
         br = bond_ranks(c)
         parts = [site(dims[i], br[i] if i < d - 1 else br[-1], br[i - 1] if i > 0 else br[0]) for i in range(d)]
         Sl, Ll, Ml = [p[0] for p in parts], [p[1] for p in parts], [p[2] for p in parts]
+        if c.get('weak_bond') is not None and c['klass'] != 'stochastic' and not intc:
+            # one bond is almost decoupled: no single-site term on its left site and a diagonal (ZZ-type) interaction 1e-4 times
+            # weaker than the rest -- its propagator differs from the identity by 1e-5 only, and still has to be applied
+            b = c['weak_bond'] % (d - 1)
+            Sl[b] = np.zeros_like(Sl[b])
+            unit = 1j if c['klass'] == 'skew' else 1.0
+            Ll[b] = [(unit * 1e-4 * np.diag(rng.uniform(0.5, 1.5, dims[b]))).astype(Ll[b][0].dtype if c['klass'] != 'skew' else complex) for _ in Ll[b]]
+            Ml[b + 1] = [np.diag(rng.uniform(0.5, 1.5, dims[b + 1])).astype(Ml[b + 1][0].dtype) for _ in Ml[b + 1]]
     return Sl, Ll, Ml
 
 
@@ -242,6 +251,8 @@ def body_structure(c):
         lab.add('components_updated_in_place')
     if c.get('bond_ranks') and len(set(c['bond_ranks'])) > 1:
         lab.add('bond_dependent_interaction_rank')
+    if c.get('weak_bond') is not None and not c['hom'] and c['klass'] != 'stochastic' and not intc:
+        lab.add('weak_bond')
     if c['cplx']:
         lab.add('complex')
     if d % 2 == 0:
